@@ -14,6 +14,10 @@ The oracle is a reference markup interpreter written from the property statement
   closing tag has nothing to close; every character is styled by the tags open at that point, combined in opening
   order (later-opened wins).
 
+Precondition (not judged, counted as ``skipped:case_sensitive_name``): a tag name that parses as a style definition
+only after lower-casing (e.g. "not BOLD"; Style.parse lower-cases every word except the one after "not") - the
+statement does not say whether names are case-sensitive.
+
 Compared with rich.markup.render(s, emoji=False) / Text.from_markup(s, emoji=False): plain text; MarkupError iff;
 per character the multiset of resolved styles of the spans covering it (``c04.tag_regions``) and the effective
 style obtained by combining them in rich's span order vs. the reference's opening order (``c04.tag_order``); for
